@@ -325,6 +325,7 @@ def initBoth : Both := {}
 def stepBoth (prop : Nat) (b : Both) (line : String) : Both × String :=
   match tokens line with
   | ["ev", "begin"] => ({ b with hist := [] }, "ok")
+  | "scn" :: _ => (b, "ok")
   | "ev" :: rest =>
     match parseEv rest with
     | some e =>
